@@ -9,8 +9,10 @@ import (
 	"fmt"
 	"sort"
 	"sync"
+	"sync/atomic"
 	"testing"
 	"testing/synctest"
+	"time"
 
 	quic "github.com/refraction-networking/uquic"
 	"github.com/refraction-networking/uquic/internal/flowcontrol"
@@ -485,11 +487,6 @@ func (r *rt) judge(i int, op Op, e exp, o obs, m *model) *vf.Verdict {
 			r.createdIn[idType(id)]++
 		}
 	}
-	for t := 0; t < 2; t++ {
-		if open := r.createdIn[t] - m.in[t].released; open > m.in[t].L {
-			return vf.Bad("C15/incoming/too-many-open", "%s: %d incoming streams of type %d are open, limit %d", where, open, t, m.in[t].L)
-		}
-	}
 
 	// ---- result of the call itself ----
 	switch op.K {
@@ -539,6 +536,12 @@ func (r *rt) judge(i int, op Op, e exp, o obs, m *model) *vf.Verdict {
 	case "complete":
 		if o.delErr != nil {
 			return vf.Bad("C15/delete/error", "%s: DeleteStream of a live stream failed (the connection would close): %v", where, o.delErr)
+		}
+	}
+
+	for t := 0; t < 2; t++ {
+		if open := r.createdIn[t] - m.in[t].released; open > m.in[t].L {
+			return vf.Bad("C15/incoming/too-many-open", "%s: %d incoming streams of type %d are open, limit %d", where, open, t, m.in[t].L)
 		}
 	}
 
@@ -681,6 +684,8 @@ type result struct {
 
 // runCase must be called inside a synctest bubble.
 func runCase(c Case) (res result) {
+	progress.Add(1)
+	curCase.Store(&c)
 	m := newModel(c.P)
 	r := newRT(c.P)
 	res.flags = m.flags
@@ -800,14 +805,47 @@ func (m *model) raceValid(op Op) bool {
 
 var curT *testing.T
 
-// bubble runs f inside a fresh synctest bubble; panics of the bubble machinery (a goroutine that
-// can never exit) become a verdict.
+var (
+	progress atomic.Int64 // histories started (watchdog)
+	hung     atomic.Bool
+	curCase  atomic.Pointer[Case]
+)
+
+// bubble runs f inside a fresh synctest bubble. Panics of the bubble machinery (a goroutine that
+// can never exit) become a verdict. A wall-clock watchdog exists only to turn a process that is
+// stuck for good (e.g. a mutex left locked by a panicking implementation, which synctest cannot
+// see) into a verdict instead of a driver timeout: it fires when no history was started for a
+// whole minute, five orders of magnitude above the cost of a history; it never influences a
+// verdict otherwise.
 func bubble(f func()) (v *vf.Verdict) {
-	defer func() {
-		if p := recover(); p != nil {
-			v = vf.Bad("C15/lifecycle/bubble-stuck", "synctest bubble could not end: %v", p)
-		}
+	if hung.Load() {
+		return nil // the process is already condemned; do not pile up stuck goroutines
+	}
+	done := make(chan *vf.Verdict, 1)
+	go func() {
+		var v *vf.Verdict
+		defer func() {
+			if p := recover(); p != nil {
+				v = vf.Bad("C15/lifecycle/bubble-stuck", "synctest bubble could not end: %v", p)
+			}
+			done <- v
+		}()
+		synctest.Test(curT, func(*testing.T) { f() })
 	}()
-	synctest.Test(curT, func(*testing.T) { f() })
-	return nil
+	last := progress.Load()
+	tick := time.NewTicker(60 * time.Second)
+	defer tick.Stop()
+	for {
+		select {
+		case v := <-done:
+			return v
+		case <-tick.C:
+			cur := progress.Load()
+			if cur == last {
+				hung.Store(true)
+				return vf.Bad("C15/lifecycle/hang", "the history never finished: a call into the streams map blocks for ever outside any channel operation (lock left held?)")
+			}
+			last = cur
+		}
+	}
 }
